@@ -220,6 +220,29 @@ theorem type_name_is_xor_of_tags (ts now : UInt32) (cs : Schema) (out : SchemaV4
     exact ⟨t, hin, hid, by rw [hname, hc]; rfl⟩
 
 
+/-! ### the bytes decode back -/
+
+/-- C26 (bytes): for every `tls.schema_v4` value whose conditional `tls.arg` fields are zero when their flag bit is
+clear, the reader applied to the writer's output (followed by anything) returns the value and leaves the rest. -/
+theorem tlo_roundtrip (s : SchemaV4) (bs rest : Bytes) (h : encSchema s = some bs) (hw : wfSchema s = true) :
+    decodeSchema (bs ++ rest) = .ok (s, rest) :=
+  schema_roundtrip s bs rest h hw
+
+/-- type entries alone (no side condition): name, id, constructor count, flags, arity and parameter kinds of every
+listed type survive the byte encoding -/
+theorem tlo_types_decode_back (ts : List TlsType) (bs rest : Bytes) (h : encTypes ts = some bs) :
+    decTypes ts.length (bs ++ rest) = .ok (ts, rest) :=
+  types_roundtrip ts bs rest h
+
+/-- the TLO bytes of a generated schema decode back to the generated description; `wfSchema out` is decidable and is
+evaluated by the model driver on every generated schema of a run (it holds by construction: `GenerateTLO` sets
+`VarNum`/`ExistVarNum` only together with their flag bits) -/
+theorem tlo_bytes_decode_back (ts now : UInt32) (cs : Schema) (out : SchemaV4) (bs : Bytes)
+    (_h : generateTLO ts now cs = .ok out) (hw : wfSchema out = true) (he : encSchema out = some bs) :
+    decodeSchema bs = .ok (out, []) := by
+  have := schema_roundtrip out bs [] he hw
+  simpa using this
+
 /-! ### the two counter-examples on the unchanged code (witnesses replayed by the check on every run) -/
 
 def mkCtor (name : String) (tag : UInt32) (typeName : String) : Comb :=
